@@ -75,6 +75,10 @@ def facet_views(op: Dict[str, Any], o: Dict[str, Any], side: str) -> Dict[str, A
     logreq = o["logreq"] if "logreq" in o else len([q for q in o.get("req", []) if q[0] == "log"])
     v["log"] = {"emitted": o.get("log", []), "requests": logreq}
     v["req"] = sorted(dumps(q) for q in o.get("req", []) if q[0] not in ("log",))
+    # option reads as a set of dotted keys; parameter keys (":name:") are internal to Template.evaluate; an
+    # `AllOptions` read ("*" in the model: the whole dictionary) makes the operation's reads incomparable
+    rd = o.get("reads")
+    v["reads"] = None if rd is None or "*" in rd else sorted(k for k in set(rd) if not (k.startswith(":") and k.endswith(":")))
     return v
 
 
@@ -107,6 +111,8 @@ def diff_program(prog: Dict[str, Any], impl: Any, model: Any, facets: Iterable[s
             va.pop("req", None)
             va["log"] = {"emitted": va["log"]["emitted"]}
             vb["log"] = {"emitted": vb.get("log", {}).get("emitted", [])}
+        if va.get("reads") is None or vb.get("reads") is None:
+            va.pop("reads", None)
         for f in va:
             if f in facets and va[f] != vb.get(f):
                 out.append({"op": i, "facet": f, "impl": va[f], "model": vb.get(f)})
